@@ -62,6 +62,7 @@ type RunSpec struct {
 	TargetPrefixes []string
 	ArbWide  bool
 	Stubs    []string
+	LoadOnly bool // only type-check the packages and report what does not load (observation, not a verdict)
 	Permute  bool
 	WriteMon bool
 	Unwind   int
@@ -147,6 +148,7 @@ func runCheck(p *Prop, tier string, seed int64) int {
 	}{Outcomes: map[string]int{}, Fns: map[string]int{}, Stubs: map[string]int{}, Unsupp: map[string]int{}, Reached: map[string]int{}}
 
 	var allFindings []sym.Finding
+	observed := 0
 	var structural []string
 	findingDir := map[string]string{}
 	var samples []sampleT
@@ -155,6 +157,13 @@ func runCheck(p *Prop, tier string, seed int64) int {
 		prog, spkgs, pkgs, errs, err := loadProgram(rs.Dir, rs.Patterns, "verif")
 		if err != nil {
 			inconclusive = append(inconclusive, "load: "+err.Error())
+			continue
+		}
+		if rs.LoadOnly {
+			for _, le := range errs {
+				inconclusive = append(inconclusive, "observed (not a solver verdict): generated package does not compile although goag reported success: "+le)
+			}
+			observed += len(pkgs)
 			continue
 		}
 		agg.LoadErrors = append(agg.LoadErrors, errs...)
@@ -412,6 +421,7 @@ func runCheck(p *Prop, tier string, seed int64) int {
 		"corpus_families":               fam,
 		"corpus_rejected_by_generator":  rejected,
 		"reach_labels":                  agg.Reached,
+		"corpus_packages_type_checked":  observed,
 		"replays_attempted":             replayed,
 		"replays_confirmed":             confirmed,
 		"reach_witnesses_replayed":      wit,
